@@ -1,4 +1,7 @@
-//go:build verif
+//go:build verif && verif_c13wb
+
+// White-box group of property C13 (build tags verif && verif_c13wb): reads the private field panicErr.info;
+// see compose/verif_c13.go.
 
 package safe
 
